@@ -107,6 +107,9 @@ func anyEq(a, b any) bool {
 	case int:
 		y, ok := b.(int)
 		return vf.And(ok, x == y)
+	case int64:
+		y, ok := b.(int64)
+		return vf.And(ok, x == y)
 	case string:
 		y, ok := b.(string)
 		if !ok {
